@@ -1174,6 +1174,23 @@ fn check(rec: &Record) -> Vec<Violation> {
                     }
                 }
             }
+            // A lane without state answers SYNC with a bare `synced`: a consumer that asks to be synced is owed no state.
+            // An event that the runtime had already passed on to another consumer before this one attached is history, not
+            // state: giving it to the newcomer before its `synced` presents an old event as the lane's state.
+            if c.sync && !sc.lane_has_state && !sc.early_event {
+                if let (Some(att), Some(sy)) = (attached, notes.iter().find(|x| matches!(x.2, Note::Synced)).map(|x| x.0)) {
+                    for x in notes.iter().filter(|x| x.0 <= sy) {
+                        if let Note::Value(v) = &x.2 {
+                            let seen_before = h.notes.iter().any(|(s, id, n)| *id != c.id && *s < att && matches!(n, Note::Value(w) if w == v));
+                            if seen_before {
+                                out.push(Violation::new("C07", "C07.synced_state", "stale_event:stateless_lane", format!(
+                                    "consumer {} (attached at step {att}): before its synced (step {sy}) it was given the value {v}, an event of a lane without state that the runtime had already delivered to another consumer before this one attached", c.id)));
+                                break;
+                            }
+                        }
+                    }
+                }
+            }
             // Synced state: the value held by the consumer at synced is one the lane held between attach and then.
             if c.sync && sc.lane_has_state {
                 if let (Some(att), Some(sy)) = (attached, notes.iter().find(|x| matches!(x.2, Note::Synced)).map(|x| x.0)) {
